@@ -1,4 +1,4 @@
 CONSTANTS Tier = "t"  Emit = TRUE  Bug = "none"
 SPECIFICATION Spec
-INVARIANT AllPicked TypeOK NoFail RoundTrip Bip144Iff IdLemma
+INVARIANT AllPicked TypeOK NoFail RoundTrip Bip144Iff LtcFlagLemma IdLemma
 CHECK_DEADLOCK FALSE
